@@ -49,6 +49,18 @@ CHECKS["C10"] = dict(cat="model_checking", engine="S-schedule-dfs", tech="statel
    note="Trusted: the virtual loop's notion of an atomic external operation (executor job / DB statement executed and completed at one scheduling point, DB channel FIFO), "
         "the sequential reference (vf/refmodel/linear.py, store.py), the response tokenizer. Real OS-thread races inside aiosqlite/aiofiles are outside the cooperative scheduler.",
    ref="DESIGN.md section 4 C10")
+CHECKS["C12"] = H("C12", "For every history up to the depth bound the state is observed through the protocol, the server is restarted in an orderly way (shutdown()+start-up, and the real "
+   "run() loop's exit after 30 virtual minutes without clients followed by a relaunch) and observed again; the two observations (LIST/LSUB, UIDVALIDITY, UIDNEXT, UIDs, content ids, "
+   "flags mod \\Recent, subscription, STATUS) must be equal. Differential: no hand-written expected values.",
+   tech="explicit-state BFS over operation histories with a differential restart oracle")
+CHECKS["C11"] = dict(cat="fault_enumeration", engine="K-crash-enumeration", tech="exhaustive crash-point enumeration (every DB operation and folder mutation) with real re-boot of every distinct on-disk state",
+   text="14 representative histories (thorough: also every history of length <=3 over a 8-command alphabet) are run on the real server with a crash point before and after every "
+        "database operation and every audited file-system mutation under the maildir (incl. the instant right after .mh_sequences is truncated). Every distinct on-disk state is booted "
+        "with the real start-up path and interrogated: start-up succeeds, every mailbox selects, acknowledged messages/expunges/flag changes hold, revealed (UIDVALIDITY, UID) pairs "
+        "keep their content, UIDNEXT stays above every revealed UID.",
+   note="Process death (kill -9) at Python-call / DB-operation granularity; not power loss, no torn sectors; SQLite's own atomicity is trusted. sys.setprofile c_return is used to reach "
+        "the state right after a C call returns. Default schedule, one session.",
+   ref="DESIGN.md section 4 C11")
 NOT_YET = {}
 
 def main():
